@@ -611,7 +611,7 @@ func c16Zorums(r *vp.InstResult) {
 
 func init() {
 	checks["C16"] = &check{
-		rule: "small-scope enumeration of proto service definitions fed to the plugin built from the working tree (requests built from synthesised descriptors, no protoc): (a) single-method services over the full lattice of 512 option combinations {quorumcall, async, correctable, multicast, unicast, per_node_arg, custom_return_type, client stream, server stream} x 4 message shapes {local, imported Empty in, imported Empty out, same message}; (b) two-method services over all 484 ordered pairs of the 22 legal combinations with shared and with distinct message types; (c) reserved and unusual identifier spellings for messages, services, methods, plus an enum; (d) determinism: 3 plain runs and runs of a plugin whose map ranges are routed through a controlled iteration order {sorted, reversed, rotations} on legal single / two-method services and on every proto file of the repository; (e) all 484 ordered pairs of legal single-method files with the same method name requested in ONE CodeGeneratorRequest, each output compared with a single-file run; oracle: legality model of doc/method-options.md - legal must be accepted and compile (go build of all emitted packages together with protoc-gen-go output against /repo), documented-illegal and reserved names must end with a diagnostic (not a Go panic), everything else must be rejected or compile; outputs byte-identical across runs and orders; an outcome is (class, plugin result class)",
+		rule:        "small-scope enumeration of proto service definitions fed to the plugin built from the working tree (requests built from synthesised descriptors, no protoc): (a) single-method services over the full lattice of 512 option combinations {quorumcall, async, correctable, multicast, unicast, per_node_arg, custom_return_type, client stream, server stream} x 4 message shapes {local, imported Empty in, imported Empty out, same message}; (b) two-method services over all 484 ordered pairs of the 22 legal combinations with shared and with distinct message types; (c) reserved and unusual identifier spellings for messages, services, methods, plus an enum; (d) determinism: 3 plain runs and runs of a plugin whose map ranges are routed through a controlled iteration order {sorted, reversed, rotations} on legal single / two-method services and on every proto file of the repository; (e) all 484 ordered pairs of legal single-method files with the same method name requested in ONE CodeGeneratorRequest, each output compared with a single-file run; oracle: legality model of doc/method-options.md - legal must be accepted and compile (go build of all emitted packages together with protoc-gen-go output against /repo), documented-illegal and reserved names must end with a diagnostic (not a Go panic), everything else must be rejected or compile; outputs byte-identical across runs and orders; an outcome is (class, plugin result class)",
 		assumptions: []string{"descriptors are synthesised programmatically with gorums' extension numbers; protoc's own validation is not in the loop", "'compiles' = go build of the generated package with the protoc-gen-go output of the same file against /repo's runtime"},
 		gen: func(tier string) []instance {
 			var out []instance
